@@ -368,6 +368,9 @@ type EncryptOptions struct {
 	KW, Cipher int
 	// Wrap turns the 32-byte file key into the wrapped file key.
 	Wrap func(fileKey []byte) ([]byte, error)
+	// ManifestOrder and ManifestEscape select among the spellings of the manifest line that the
+	// format leaves to the writer (see manifest.go); the zero values give encoding/json's spelling.
+	ManifestOrder, ManifestEscape string
 	// FileKey and NoncePrefix, when set, are used instead of fresh random
 	// values (to regenerate a given document; never for real use).
 	FileKey, NoncePrefix []byte
@@ -405,18 +408,11 @@ func Encrypt(plaintext []byte, o EncryptOptions) ([]byte, error) {
 	var out bytes.Buffer
 	out.WriteString(SchemeLine)
 	out.WriteByte('\n')
-	out.WriteByte('{')
-	if o.KeyName != "" {
-		k, err := json.Marshal(o.KeyName)
-		if err != nil {
-			return nil, err
-		}
-		out.WriteString(`"k":`)
-		out.Write(k)
-		out.WriteByte(',')
+	line, err := manifestLine(o, wfk, np)
+	if err != nil {
+		return nil, err
 	}
-	fmt.Fprintf(&out, `"kw":%d,"wfk":"%s","cph":%d,"np":"%s"}`, o.KW,
-		base64.StdEncoding.EncodeToString(wfk), o.Cipher, base64.StdEncoding.EncodeToString(np))
+	out.WriteString(line)
 	out.WriteByte('\n')
 	out.WriteString(base64.StdEncoding.EncodeToString(headerMAC(fk, out.Bytes())))
 	out.WriteByte('\n')
